@@ -45,6 +45,8 @@ func c01Patterns() []string {
 
 var c01Pats = c01Patterns()
 
+var c01HexLikeNames = []string{"cafe.de", "bad.ee", "face.cc", "abc.de", "0.cc", "dead.beef.fe", "f00d.ac"}
+
 func c01URLs() []string {
 	u := []string{"http://example.org/ads/x.js", "https://a.com/", "http://google.com/adsa6/adsgp", "http://x.com/banner_ad", "http://x.com/q?adsgp",
 		"https://www.example.org/ads/", "http://1.2.3.4/ab", "http://example.org/ads/x.js?a=b&c=d", "ws://x.com/ads", "http://x.com/ads/ads/ads/x.js",
@@ -182,6 +184,10 @@ func genC01(t *rapid.T) c01Case {
 			// a $domain value whose hash is 0, the value the hash function returns for the empty string
 			m.DPerm = append(m.DPerm, pick(t, "zero-hash", zeroHashNames))
 		}
+		if chance(t, "hex-like-domain", 12) {
+			// a $domain value spelled with hexadecimal digits and dots only (it looks like an address to a character test)
+			m.DPerm = append(m.DPerm, pick(t, "hex-like", c01HexLikeNames))
+		}
 		if wideMask(m.Pat) && !m.hasRestriction() {
 			m.DPerm = []string{"example.org"}
 		}
@@ -242,6 +248,10 @@ func genC01(t *rapid.T) c01Case {
 	}
 	lines = shuffledKeepDup(t, lines)
 	c := c01Case{Lists: distribute(t, lines, rapid.IntRange(1, 4).Draw(t, "nlists"))}
+	if len(c.Lists) > 0 && chance(t, "bom-first-list", 8) {
+		// a byte-order mark before the first line: that line is the text WITH the mark, for the index and for retrieval alike
+		c.Lists[0].Text = "\ufeff" + pick(t, "bom-line", []string{"ads", "ad_", "/ad", "||example.org^", "ads$domain=example.org"}) + "\n" + c.Lists[0].Text
+	}
 	nq := rapid.IntRange(5, 30).Draw(t, "nreq")
 	if mass && nq > 8 {
 		nq = 8
@@ -272,6 +282,9 @@ func genC01(t *rapid.T) c01Case {
 		}
 		if chance(t, "zero-hash-src", 15) && !q.Host {
 			q.Src = "http://" + pick(t, "zsub", []string{"", "www."}) + pick(t, "zero-hash-src-name", zeroHashNames) + "/"
+		}
+		if chance(t, "hex-like-src", 12) && !q.Host {
+			q.Src = "http://" + pick(t, "hsub", []string{"", "a.", "0."}) + pick(t, "hex-like-src-name", c01HexLikeNames) + "/"
 		}
 		if chance(t, "colliding-src", 12) && !q.Host {
 			cp := pick(t, "scoll", domainColliders)
